@@ -164,11 +164,33 @@ def _r20d(rep):
         rep.instance("R20d", QHA, "QHA.run", f"{tgt} = {core.src(hits[0].value) if hits else '?'}", bool(hits) and symalg.same(symalg.open_expr(core.src(hits[0].value)), symalg.open_expr(val))[0],
                      f"expected {tgt} = {val} (parameter order E0, B0, B0', V0)", line=hits[0].lineno if hits else run.lineno, obligation=True)
     bm = core.find_def(QHA, "BulkModulus.__init__")
-    tup = [s for s in ast.walk(bm) if isinstance(s, ast.Assign) and isinstance(s.targets[0], ast.Tuple) and "fit_to_eos" in core.src(s.value)]
-    got = [core.src(t) for s in tup for t in s.targets[0].elts]
-    rep.instance("R20d", QHA, "BulkModulus.__init__", ", ".join(got[:4]),
-                 got[:4] == ["self._energy", "self._bulk_modulus", "self._b_prime", "self._equiv_volume"],
-                 "fit result is not unpacked as (energy, bulk modulus, B', volume)", line=bm.lineno, obligation=True)
+    # which fitted number lands in which attribute, for one curve and for a (temperatures, volumes) array: evaluated with the
+    # fit as an uninterpreted function of the curve it is given (whatever the spelling: unpacking, loops, reshapes)
+    from engine import symnp
+
+    FIT = [sp.Function(f"fit{k}") for k in range(4)]
+
+    def _hook(call, evl):
+        if isinstance(call.func, ast.Attribute) and call.func.attr == "fit_to_eos" and core.src(call.func.value) == "self" and len(call.args) == 1:
+            row = evl.ev(call.args[0])
+            tag = row[0] if isinstance(row, list) else row
+            return [F(tag) for F in FIT]
+        if core.src(call.func) == "get_eos":
+            return sp.Symbol("eos")
+        return None
+
+    names = ["self._energy", "self._bulk_modulus", "self._b_prime", "self._equiv_volume"]
+    for label, energies in (("one curve", [sp.Symbol(f"e{v}") for v in range(4)]), ("three temperatures", [[sp.Symbol(f"e{t}_{v}") for v in range(4)] for t in range(3)])):
+        E_ = symnp.Evaluator({"volumes": [sp.Symbol(f"v{v}") for v in range(4)], "energies": energies, "pressure": None, "eos": sp.Symbol("eosname")}, where="BulkModulus.__init__", call_hook=_hook)
+        symnp.run_block(E_, [st for st in bm.body if not (isinstance(st, ast.Expr) and isinstance(st.value, ast.Constant))])
+        got = [E_.env.get(nm) for nm in names]
+        if label == "one curve":
+            want = [F(energies[0]) for F in FIT]
+        else:
+            want = [[F(energies[t][0]) for t in range(3)] for F in FIT]
+        ok = all(g is not None and symnp.shape(g) == symnp.shape(w) and symnp.equal(g, w) for g, w in zip(got, want))
+        rep.instance("R20d", QHA, "BulkModulus.__init__", f"{label}: (energy, bulk modulus, B', volume) <- components 0..3 of the fit of each curve", ok,
+                     f"for {label} the attributes (energy, bulk modulus, B', equilibrium volume) receive {core.norm(str(got), 200)} instead of component k of the fit of temperature t at position t of attribute k: fitted numbers land in the wrong quantity / temperature slot", line=bm.lineno, obligation=True)
     f2 = core.find_def(QHA, "BulkModulus.fit_to_eos")
     rets = [core.src(s.value) for s in ast.walk(f2) if isinstance(s, ast.Return)]
     un = [core.src(s.targets[0]) for s in ast.walk(f2) if isinstance(s, ast.Assign) and "fit_to_eos" in core.src(s.value)]
@@ -679,6 +701,9 @@ def selftest():
     V = []
     b = lambda name, file, old, new, rule, expect="", **kw: V.append(dict(name=name, kind="break", file=file, old=old, new=new, rule=rule, expect=expect, **kw))
     n = lambda name, file, old, new, **kw: V.append(dict(name=name, kind="neutral", file=file, old=old, new=new, **kw))
+    QHA_ = "phonopy/qha/core.py"
+    b("per-temperature fits regrouped by reshape instead of transpose", QHA_, "            for i, energies_at_T in enumerate(self._energies):\n                e, b, bp, ev = self.fit_to_eos(energies_at_T)\n                self._energy[i] = e\n                self._bulk_modulus[i] = b\n                self._b_prime[i] = bp\n                self._equiv_volume[i] = ev", "            params = np.array([self.fit_to_eos(e_T) for e_T in self._energies], dtype=\"double\").reshape(4, -1)\n            self._energy, self._bulk_modulus, self._b_prime, self._equiv_volume = params", "R20d", "BulkModulus.__init__")
+    n("per-temperature fits regrouped by transpose", QHA_, "            for i, energies_at_T in enumerate(self._energies):\n                e, b, bp, ev = self.fit_to_eos(energies_at_T)\n                self._energy[i] = e\n                self._bulk_modulus[i] = b\n                self._b_prime[i] = bp\n                self._equiv_volume[i] = ev", "            params = np.array([self.fit_to_eos(e_T) for e_T in self._energies], dtype=\"double\").T\n            self._energy, self._bulk_modulus, self._b_prime, self._equiv_volume = params")
     b("PhonopyQHA hands a resolved EOS function to QHA", "phonopy/api_qha.py", "                eos=eos,", "                eos=get_eos(eos),", "R20n", "QHA(")
     b("Birch-Murnaghan coefficient 9/8", EOS, "return p[0] + 9.0 / 16 * p[3] * p[1] * (", "return p[0] + 9.0 / 8 * p[3] * p[1] * (", "R20a", "birch_murnaghan")
     b("Vinet exponent", EOS, "        xi = 3.0 / 2 * (p[2] - 1)", "        xi = 3.0 / 2 * (p[2] + 1)", "R20a", "vinet")
